@@ -17,7 +17,7 @@ LEVEL_TEXT = ("Lean 4 theorems over (a) the leaf closed forms regenerated from g
               "(C03_circuit_inverse_embedded, via multiplicativity of the wire embedding), tied by differential execution of Circuit.inverse().")
 ASSUMPTIONS = ["scipy.linalg.expm is modelled by NormedSpace.exp, sqrtm(1-H^2) by any Hermitian square root commuting with H, "
                "np.linalg.qr by any real orthogonal completion with first column +-x/|x| (each assumption is checked numerically on every sampled call)",
-               "IEEE rounding/overflow is not modelled: theorems are over R/C, the numeric tie uses tolerance 1e-9 and |theta| <= 1e12",
+               "IEEE rounding/overflow is not modelled: theorems are over R/C, the numeric tie uses tolerance 1e-9 and |theta| <= 1e12; scipy.linalg.expm loses unitarity at the level eps*|t|*||H|| (6e-5 at 5e11), evolution times are sampled with |t| <= 1e4",
                "leaf closed forms are tied by the translator (IR validated against the live class at 20-60 parameter points per class)"]
 RULE = ("circuits: seeded random gate lists of length 0..12 over 1..5 wires in 1..2 fields (overlapping/identical wire sets, idle wires, "
         "occasionally a barrier, for which the code has no inverse), inverted, then edited in place 0..3 times (replace/swap/reverse/pop+append/append/prepend/in-place angle change - length-preserving edits included) and inverted again after every edit, each state compared with the model's circuitInverse; gates: every leaf class at boundary angles, ALL control patterns up to 3 (quick) / 4 (thorough) controls around non-symmetric targets, "
